@@ -23,7 +23,7 @@ ASSUMPTIONS = [
     "when the exception reaches the caller, 'stop' has nothing left to observe",
 ]
 ENUM_EXHAUSTIVE = {
-    "thorough": "63 policies x 2 routes x 10 override settings x 5 error kinds x (4 offending-line patterns x 3 component positions + 1 header-row-at-line-0 case)",
+    "thorough": "63 policies x 2 routes x 10 override settings x 5 error kinds x (4 offending-line patterns x 3 component positions + 1 header-row-at-line-0 case + 1 stop()-on-the-offending-line case)",
 }
 
 FLAGS = ["raise", "collect", "stop", "fail", "print", "quiet"]
@@ -59,6 +59,9 @@ def _all_cases():
                     # the header row itself (physical line 0) is scanned and offends
                     yield {"policy": pol, "route": route, "override": ov,
                            "kind": kind, "bad": [2], "place": 1, "hdr": True}
+                    # a later component of the offending line stops the run: the error is still handled
+                    yield {"policy": pol, "route": route, "override": ov,
+                           "kind": kind, "bad": [1, 3], "place": 0, "hdr": False, "stopper": True}
 
 
 def enumerate_cases(tier, seed):
@@ -89,12 +92,17 @@ def run_case(case, sb):
     rel = sb.write_csv("f.csv", records)
     comps = ["#id", "yes()"]
     comps.insert(case["place"], comp)
+    if case.get("stopper"):
+        comps = [comp, f'stop(#id == "d{bad[0]}")', "#id", "yes()"]
     ov = case["override"]
     comment = f"~ validation-mode: {ov} ~ " if ov else ""
     hdr = case.get("hdr", False)
     text = f'{comment}${rel}[{"*" if hdr else "1*"}][ push("tr", line_number()) {" ".join(comps)} ]'
     res = real.run_path(text, policy=attr)
     exp = errpolicy.expect(pol, ov, ([0] if hdr else []) + [b + 1 for b in bad], list(range(0 if hdr else 1, 6)))
+    if case.get("stopper"):
+        # stop() on the first offending line ends the run there whatever the policy says
+        exp = errpolicy.expect(pol, ov, [bad[0] + 1], list(range(1, bad[0] + 2)))
     labels = [f"kind:{case['kind']}", f"route:{case['route']}", f"override:{ov}",
               "policy:" + "+".join(pol)] if False else [f"kind:{case['kind']}", f"route:{case['route']}", f"override:{ov}"]
     labels += ["flag:" + f for f in pol]
